@@ -225,7 +225,7 @@ func (e *Exports) Validate(vr *ValidationResults) error {
 // HasExportContainingSubject checks if the export list has an export with the provided subject
 func (e *Exports) HasExportContainingSubject(subject Subject) bool {
 	for _, s := range *e {
-		if subject.IsContainedIn(s.Subject) {
+		if s != nil && subject.IsContainedIn(s.Subject) {
 			return true
 		}
 	}
@@ -241,5 +241,9 @@ func (e Exports) Swap(i, j int) {
 }
 
 func (e Exports) Less(i, j int) bool {
+	if e[i] == nil || e[j] == nil {
+		// null entries (rejected by Validate) sort first
+		return e[i] == nil && e[j] != nil
+	}
 	return e[i].Subject < e[j].Subject
 }
